@@ -3,3 +3,210 @@
 
 // Contracts (comment-only; no code). Checked by /verif/engine (govc) against the go/ssa of this package.
 package service
+
+// ---------------------------------------------------------------- end-of-block closures
+// EndBlocker$3 = newRequestBatchHandler(requestContextID, requestContext): called for every entry of the new-batch queue at this height,
+// with the stored context (or the zero value if it is missing).
+//@ func EndBlocker$3
+//@ props C06 C09 C01 C11 C10 C12
+//@ modifies raw, bal, cblog
+//@ requires wf: WF(raw)
+//@ requires called_with_the_stored_context: ctxFound(raw, requestContextID) && requestContext == ctxOf(raw, requestContextID) && rng_RequestContext(requestContext)
+//@ requires providers_bounded: len(requestContext.Providers) <= 32767
+//@ ensures [C11] queue_entry_consumed: allBase(old(raw), requestContext.ServiceName, requestContext.Providers) || requestContext.State != RUNNING ==>
+//@      raw[KNewQ(ctxHeight(ctx), requestContextID)] == bnil && raw[KNewH(requestContextID)] == bnil
+//@ ensures [C11] queue_entry_consumed_when_a_price_is_not_in_base_denom: !allBase(old(raw), requestContext.ServiceName, requestContext.Providers) && requestContext.State == RUNNING ==>
+//@      raw[KNewQ(ctxHeight(ctx), requestContextID)] == bnil && raw[KNewH(requestContextID)] == bnil
+//@ ensures [C09] not_running_means_no_batch: requestContext.State != RUNNING ==> bal == old(bal) && cblog == old(cblog) &&
+//@      raw == old(raw)[KNewQ(ctxHeight(ctx), requestContextID) := bnil][KNewH(requestContextID) := bnil]
+//@ ensures [C06] skipped_without_charge_when_too_few_eligible: (let rc := requestContext in
+//@      let F := filtIt(old(raw), ctxTime(ctx), rc.ServiceName, rc.Timeout, rc.ServiceFeeCap, rc.Consumer, rc.Providers, len(rc.Providers)) in
+//@      rc.State == RUNNING && allBase(old(raw), rc.ServiceName, rc.Providers) && !(len(F) > 0 && len(F) >= rc.ResponseThreshold) ==> bal == old(bal) && cblog == old(cblog) &&
+//@      raw == old(raw)[KCtx(requestContextID) := enc_RequestContext(rc[BatchCounter := wrap_u64(rc.BatchCounter + 1)][BatchState := BATCHRUNNING][BatchRequestCount := 0][BatchResponseCount := 0][BatchResponseThreshold := rc.ResponseThreshold])]
+//@             [KExpQ(wrap_i64(ctxHeight(ctx) + rc.Timeout), requestContextID) := idVal(requestContextID)][KExpH(requestContextID) := hVal(wrap_i64(ctxHeight(ctx) + rc.Timeout))]
+//@             [KNewQ(ctxHeight(ctx), requestContextID) := bnil][KNewH(requestContextID) := bnil])
+//@ ensures [C06,C09,C01] paused_without_requests_or_charge_when_unpaid: (let rc := requestContext in
+//@      let F := filtIt(old(raw), ctxTime(ctx), rc.ServiceName, rc.Timeout, rc.ServiceFeeCap, rc.Consumer, rc.Providers, len(rc.Providers)) in
+//@      let Tot := totIt(old(raw), ctxTime(ctx), rc.ServiceName, rc.Timeout, rc.ServiceFeeCap, rc.Consumer, rc.Providers, len(rc.Providers)) in
+//@      rc.State == RUNNING && allBase(old(raw), rc.ServiceName, rc.Providers) && len(F) > 0 && len(F) >= rc.ResponseThreshold && !rc.SuperMode && !canPay(old(bal), rc.Consumer, Tot) ==> bal == old(bal) &&
+//@      raw == old(raw)[KCtx(requestContextID) := enc_RequestContext(rc[BatchState := BATCHCOMPLETED][State := PAUSED])][KNewQ(ctxHeight(ctx), requestContextID) := bnil][KNewH(requestContextID) := bnil])
+//@ ensures [C06,C01,C08,C10] issues_to_exactly_the_eligible_and_charges_their_total: (let rc := requestContext in
+//@      let F := filtIt(old(raw), ctxTime(ctx), rc.ServiceName, rc.Timeout, rc.ServiceFeeCap, rc.Consumer, rc.Providers, len(rc.Providers)) in
+//@      let Tot := totIt(old(raw), ctxTime(ctx), rc.ServiceName, rc.Timeout, rc.ServiceFeeCap, rc.Consumer, rc.Providers, len(rc.Providers)) in
+//@      rc.State == RUNNING && allBase(old(raw), rc.ServiceName, rc.Providers) && len(F) > 0 && len(F) >= rc.ResponseThreshold && (rc.SuperMode || canPay(old(bal), rc.Consumer, Tot)) ==>
+//@      bal == (rc.SuperMode ? old(bal) : bankMove(old(bal), rc.Consumer, requestAcc, Tot)) && cblog == old(cblog) &&
+//@      raw == issueIt(old(raw), ctxTime(ctx), ctxHeight(ctx), requestContextID, rc, wrap_u64(rc.BatchCounter + 1), F, len(F))
+//@             [KCtx(requestContextID) := enc_RequestContext(rc[BatchCounter := wrap_u64(rc.BatchCounter + 1)][BatchState := BATCHRUNNING][BatchResponseCount := 0][BatchRequestCount := wrap_u32(len(F))][BatchResponseThreshold := rc.ResponseThreshold])]
+//@             [KExpQ(wrap_i64(ctxHeight(ctx) + rc.Timeout), requestContextID) := idVal(requestContextID)][KExpH(requestContextID) := hVal(wrap_i64(ctxHeight(ctx) + rc.Timeout))]
+//@             [KNewQ(ctxHeight(ctx), requestContextID) := bnil][KNewH(requestContextID) := bnil])
+
+// EndBlocker$1 = expiredRequestHandler(requestID, request): called for every still-pending request of an expired batch.
+//@ func EndBlocker$1
+//@ props C02 C04 C08 C16 C03
+//@ modifies raw, bal, supply
+//@ preserves wf: WF(raw)
+//@ preserves [C03] deposits_in_custody: depInv(raw, bal)
+//@ requires called_with_the_stored_request: requestFound(raw, requestID) && request == requestOf(raw, requestID)
+//@ requires [C04] binding_of_request_exists: bindFound(raw, reqSvc(raw, requestID), reqProv(raw, requestID))
+//@ requires consumer_ordinary: ordinary(reqConsumer(raw, requestID))
+//@ ensures [C02,C08,C16] no_longer_pending_in_either_index: raw[KActID(requestID)] == bnil && raw[KActB(request.ServiceName, request.Provider, request.ExpirationHeight, requestID)] == bnil
+//@ ensures [C04,C07] super_mode_neither_slashes_nor_refunds: request.SuperMode ==> bal == old(bal) && supply == old(supply) &&
+//@      raw == old(raw)[KActB(request.ServiceName, request.Provider, request.ExpirationHeight, requestID) := bnil][KActID(requestID) := bnil]
+//@ ensures [C04,C02] timeout_slashes_the_binding_and_refunds_the_consumer: !request.SuperMode ==> (let burn := slashBurn(old(raw), requestID) in
+//@      let slashed := !hasNeg(bindOf(old(raw), request.ServiceName, request.Provider).Deposit, burn) && canPay(old(bal), depositAcc, burn) in
+//@      let bal1 := (slashed ? bankBurn(old(bal), depositAcc, burn) : old(bal)) in
+//@      supply == (slashed ? supplyBurn(old(supply), burn) : old(supply)) &&
+//@      bal == (canPay(bal1, requestAcc, request.ServiceFee) ? bankMove(bal1, requestAcc, request.Consumer, request.ServiceFee) : bal1))
+//@ ensures [C15] binding_is_never_deleted: bindFound(raw, request.ServiceName, request.Provider)
+//@ ensures [C16,C15] touches_only_the_binding_and_the_two_markers: forall k Key :: {raw[k]}
+//@      (k != KBind(request.ServiceName, request.Provider) && k != KActID(requestID) && k != KActB(request.ServiceName, request.Provider, request.ExpirationHeight, requestID)) ==> raw[k] == old(raw)[k]
+
+// EndBlocker$2 = expiredRequestBatchHandler(requestContextID, requestContext): called for every entry of the expiry queue at this height.
+//@ func EndBlocker$2
+//@ props C16 C11 C10 C09 C12 C08 C02 C04
+//@ modifies raw, bal, supply, cblog
+//@ preserves wf: WF(raw)
+//@ preserves [C03] deposits_in_custody: depInv(raw, bal)
+//@ requires called_with_the_stored_context: ctxFound(raw, requestContextID) && requestContext == ctxOf(raw, requestContextID) && rng_RequestContext(requestContext)
+//@ requires [C16] pending_requests_are_well_formed: actInv(raw)
+//@ loop IterateActiveRequests.0 invariant pos_in_range: 0 <= iterator_pos && iterator_pos <= itCount(iterator_snap, iterator_pfx)
+//@ loop IterateActiveRequests.0 invariant snapshot: iterator_snap == old(raw) && iterator_pfx == PActByCtx(requestContextID, batchCounter) && batchCounter == old(requestContext).BatchCounter && cblog == old(cblog)
+//@ loop IterateActiveRequests.0 invariant wf: WF(raw) && depInv(raw, bal)
+//@ loop IterateActiveRequests.0 invariant records_untouched: forall k Key :: {raw[k]} (!is_KBind(k) && !is_KActB(k) && !is_KActID(k)) ==> raw[k] == iterator_snap[k]
+//@ loop IterateActiveRequests.0 invariant bindings_stay: forall s Str, p Bytes :: {raw[KBind(s, p)]} bindFound(iterator_snap, s, p) ==> bindFound(raw, s, p)
+//@ loop IterateActiveRequests.0 invariant markers_expired_so_far: forall k Key :: {raw[k]} is_KActID(k) ==> raw[k] ==
+//@      ((inPfx(k, iterator_pfx) && iterator_snap[k] != bnil && itIdx(iterator_snap, iterator_pfx, k) < iterator_pos) ? bnil : iterator_snap[k])
+//@ ensures [C11] expiry_entry_consumed: raw[KExpQ(ctxHeight(ctx), requestContextID)] == bnil && raw[KExpH(requestContextID)] == bnil
+//@ ensures [C10,C11] next_batch_scheduled_frequency_after_this_batch_started: (let rc := requestContext in
+//@      rc.State == RUNNING && rc.Repeated && (rc.RepeatedTotal < 0 || wrap_i64(rc.BatchCounter) < rc.RepeatedTotal) ==>
+//@      (let next := wrap_i64(wrap_i64(ctxHeight(ctx) - rc.Timeout) + wrap_i64(rc.RepeatedFrequency)) in raw[KNewQ(next, requestContextID)] == idVal(requestContextID) && raw[KNewH(requestContextID)] == hVal(next)))
+//@ ensures [C16,C09,C10] context_removed_exactly_when_finished: (let rc := requestContext in
+//@      let finished := rc.State == COMPLETED || (rc.State == RUNNING && !(rc.Repeated && (rc.RepeatedTotal < 0 || wrap_i64(rc.BatchCounter) < rc.RepeatedTotal))) in
+//@      raw[KCtx(requestContextID)] == (finished ? bnil : enc_RequestContext(rc[BatchState := BATCHCOMPLETED])))
+//@ ensures [C16] batch_request_records_removed: forall rid Bytes :: {raw[KReq(rid)]} ridCtx(rid) == requestContextID && ridBatch(rid) == requestContext.BatchCounter ==> raw[KReq(rid)] == bnil
+//@ ensures [C16,C08] no_request_of_the_batch_stays_pending: requestContext.BatchState != BATCHCOMPLETED ==>
+//@      (forall rid Bytes :: {raw[KActID(rid)]} ridCtx(rid) == requestContextID && ridBatch(rid) == requestContext.BatchCounter ==> raw[KActID(rid)] == bnil)
+//@ ensures [C12] callback_once_if_the_batch_was_still_open: (let rc := requestContext in requestContext.BatchState == BATCHCOMPLETED || len(rc.ModuleName) == 0 ==> cblog == old(cblog))
+
+// ---------------------------------------------------------------- message handlers (C05: authority; a message debits only its signer)
+//@ func handleMsgDefineService
+//@ props C05 C15
+//@ modifies raw
+//@ ensures [C15] defines_once: err == NoErr ==> !defFound(old(raw), msg.Name) && raw == old(raw)[KDef(msg.Name) := raw[KDef(msg.Name)]]
+//@ ensures error_changes_nothing: err != NoErr ==> raw == old(raw)
+
+//@ func handleMsgBindService
+//@ props C05 C03 C14 C15
+//@ modifies raw, bal
+//@ preserves wf: WF(raw)
+//@ preserves [C03] deposits_in_custody: depInv(raw, bal)
+//@ requires a3_signer_ordinary: ordinary(msg.Owner)
+//@ requires a2_validated: (forall d Str :: amt(msg.Deposit, d) >= 0)
+//@ ensures [C05] module_services_cannot_be_bound: err == NoErr ==> !moduleSvcFound(msg.ServiceName)
+//@ ensures [C05] provider_keeps_its_owner: err == NoErr ==> (ownerFound(old(raw), msg.Provider) ==> addrEq(msg.Owner, ownerOf(old(raw), msg.Provider)))
+//@ ensures [C05] only_the_signer_is_debited: forall a Bytes, d Str :: {bal[a][d]} a != msg.Owner ==> bal[a][d] >= old(bal)[a][d]
+//@ ensures error_changes_nothing: err != NoErr ==> raw == old(raw) && bal == old(bal)
+
+//@ func handleMsgUpdateServiceBinding
+//@ props C05 C03 C14
+//@ modifies raw, bal
+//@ preserves wf: WF(raw)
+//@ preserves [C03] deposits_in_custody: depInv(raw, bal)
+//@ requires a3_signer_ordinary: ordinary(msg.Owner)
+//@ requires a2_validated: (forall d Str :: amt(msg.Deposit, d) >= 0)
+//@ ensures [C05] only_the_binding_owner: err == NoErr ==> bindFound(old(raw), msg.ServiceName, msg.Provider) && addrEq(msg.Owner, bindOf(old(raw), msg.ServiceName, msg.Provider).Owner)
+//@ ensures [C05] only_the_signer_is_debited: forall a Bytes, d Str :: {bal[a][d]} a != msg.Owner ==> bal[a][d] >= old(bal)[a][d]
+
+//@ func handleMsgSetWithdrawAddress
+//@ props C05 C13
+//@ modifies raw
+//@ ensures [C13,C05] only_the_signers_own_withdrawal_address_changes: raw == old(raw)[KWAddr(msg.Owner) := raw[KWAddr(msg.Owner)]] && withdrawAddrOf(raw, msg.Owner) == msg.WithdrawAddress
+//@ requires a2_validated: len(msg.WithdrawAddress) > 0
+
+//@ func handleMsgDisableServiceBinding
+//@ props C05 C03
+//@ modifies raw
+//@ preserves wf: WF(raw)
+//@ preserves [C03] deposits_in_custody: depInv(raw, bal)
+//@ ensures [C05] only_the_binding_owner: err == NoErr ==> bindFound(old(raw), msg.ServiceName, msg.Provider) && addrEq(msg.Owner, bindOf(old(raw), msg.ServiceName, msg.Provider).Owner)
+//@ ensures error_changes_nothing: err != NoErr ==> raw == old(raw)
+
+//@ func handleMsgEnableServiceBinding
+//@ props C05 C03 C14
+//@ modifies raw, bal
+//@ preserves wf: WF(raw)
+//@ preserves [C03] deposits_in_custody: depInv(raw, bal)
+//@ requires a3_signer_ordinary: ordinary(msg.Owner)
+//@ requires a2_validated: (forall d Str :: amt(msg.Deposit, d) >= 0)
+//@ ensures [C05] only_the_binding_owner: err == NoErr ==> bindFound(old(raw), msg.ServiceName, msg.Provider) && addrEq(msg.Owner, bindOf(old(raw), msg.ServiceName, msg.Provider).Owner)
+//@ ensures [C05] only_the_signer_is_debited: forall a Bytes, d Str :: {bal[a][d]} a != msg.Owner ==> bal[a][d] >= old(bal)[a][d]
+//@ ensures error_changes_nothing: err != NoErr ==> raw == old(raw) && bal == old(bal)
+
+//@ func handleMsgRefundServiceDeposit
+//@ props C05 C03
+//@ modifies raw, bal
+//@ preserves wf: WF(raw)
+//@ preserves [C03] deposits_in_custody: depInv(raw, bal)
+//@ ensures [C05] only_the_binding_owner: err == NoErr ==> bindFound(old(raw), msg.ServiceName, msg.Provider) && addrEq(msg.Owner, bindOf(old(raw), msg.ServiceName, msg.Provider).Owner)
+//@ ensures [C05] no_ordinary_account_is_debited: forall a Bytes, d Str :: {bal[a][d]} a != depositAcc ==> bal[a][d] >= old(bal)[a][d]
+//@ ensures error_changes_nothing: err != NoErr ==> raw == old(raw) && bal == old(bal)
+
+//@ func handleMsgPauseRequestContext
+//@ props C05 C09
+//@ modifies raw
+//@ ensures [C05] only_the_consumer_and_never_a_module_context: err == NoErr ==> (let c := ctxOf(old(raw), msg.RequestContextId) in
+//@      ctxFound(old(raw), msg.RequestContextId) && addrEq(msg.Consumer, c.Consumer) && len(c.ModuleName) == 0)
+//@ ensures [C09] pause_only: err == NoErr ==> (let c := ctxOf(old(raw), msg.RequestContextId) in c.Repeated && c.State == RUNNING &&
+//@      raw == old(raw)[KCtx(msg.RequestContextId) := enc_RequestContext(c[State := PAUSED])])
+//@ ensures error_changes_nothing: err != NoErr ==> raw == old(raw)
+
+//@ func handleMsgStartRequestContext
+//@ props C05 C09
+//@ modifies raw
+//@ ensures [C05] only_the_consumer_and_never_a_module_context: err == NoErr ==> (let c := ctxOf(old(raw), msg.RequestContextId) in
+//@      ctxFound(old(raw), msg.RequestContextId) && addrEq(msg.Consumer, c.Consumer) && len(c.ModuleName) == 0)
+//@ ensures [C09] start_only_from_paused: err == NoErr ==> ctxOf(old(raw), msg.RequestContextId).State == PAUSED && ctxOf(raw, msg.RequestContextId) == ctxOf(old(raw), msg.RequestContextId)[State := RUNNING]
+//@ ensures error_changes_nothing: err != NoErr ==> raw == old(raw)
+
+//@ func handleMsgKillRequestContext
+//@ props C05 C09
+//@ modifies raw
+//@ ensures [C05] only_the_consumer_and_never_a_module_context: err == NoErr ==> (let c := ctxOf(old(raw), msg.RequestContextId) in
+//@      ctxFound(old(raw), msg.RequestContextId) && addrEq(msg.Consumer, c.Consumer) && len(c.ModuleName) == 0)
+//@ ensures [C09] kill_only_repeated: err == NoErr ==> (let c := ctxOf(old(raw), msg.RequestContextId) in c.Repeated &&
+//@      raw == old(raw)[KCtx(msg.RequestContextId) := enc_RequestContext(c[State := COMPLETED])])
+//@ ensures error_changes_nothing: err != NoErr ==> raw == old(raw)
+
+//@ func handleMsgUpdateRequestContext
+//@ props C05 C09 C10
+//@ modifies raw
+//@ requires a2_validated: msg.Timeout >= 0
+//@ requires stored_in_range: ctxFound(raw, msg.RequestContextId) ==> rng_RequestContext(ctxOf(raw, msg.RequestContextId)) && ctxOf(raw, msg.RequestContextId).BatchCounter < 9223372036854775808
+//@ ensures [C05] only_the_consumer_and_never_a_module_context: err == NoErr ==> (let c := ctxOf(old(raw), msg.RequestContextId) in
+//@      ctxFound(old(raw), msg.RequestContextId) && addrEq(msg.Consumer, c.Consumer) && len(c.ModuleName) == 0)
+//@ ensures [C09] never_a_completed_context_identity_kept: err == NoErr ==> (let c := ctxOf(old(raw), msg.RequestContextId) in let n := ctxOf(raw, msg.RequestContextId) in
+//@      c.State != COMPLETED && sameIdentity(c, n) && n.State == c.State && n.BatchCounter == c.BatchCounter)
+//@ ensures error_changes_nothing: err != NoErr ==> raw == old(raw)
+
+//@ func handleMsgRespondService
+//@ props C05 C08 C02
+//@ modifies raw, bal, supply, cblog
+//@ maypanic
+//@ preserves wf: WF(raw)
+//@ preserves [C03] deposits_in_custody: depInv(raw, bal)
+//@ requires binding_of_request_exists: requestFound(raw, msg.RequestId) ==> bindFound(raw, reqSvc(raw, msg.RequestId), reqProv(raw, msg.RequestId))
+//@ requires fee_nonneg: requestFound(raw, msg.RequestId) ==> (forall i Int :: {reqFee(raw, msg.RequestId)[i]} 0 <= i && i < len(reqFee(raw, msg.RequestId)) ==> reqFee(raw, msg.RequestId)[i].Amount >= 0)
+//@ requires stored_in_range: requestFound(raw, msg.RequestId) ==> rng_RequestContext(ctxOf(raw, reqCtxId(raw, msg.RequestId)))
+//@ requires consumer_ordinary: requestFound(raw, msg.RequestId) ==> ordinary(reqConsumer(raw, msg.RequestId))
+//@ ensures [C05,C08] only_the_designated_provider_while_pending: err == NoErr ==> requestFound(old(raw), msg.RequestId) && addrEq(msg.Provider, reqProv(old(raw), msg.RequestId)) && isActive(old(raw), msg.RequestId)
+//@ ensures [C08] rejected_response_changes_nothing: (!requestFound(old(raw), msg.RequestId) || !addrEq(msg.Provider, reqProv(old(raw), msg.RequestId)) || !isActive(old(raw), msg.RequestId))
+//@      ==> err != NoErr && raw == old(raw) && bal == old(bal) && supply == old(supply)
+
+//@ func handleMsgWithdrawEarnedFees
+//@ props C05 C13
+//@ modifies raw, bal
+//@ requires a3_signer_address: len(msg.Owner) == 20
+//@ requires owner_total_covers_provider: forall d Str :: pfxSum(raw, POwnerEarned(msg.Owner), d) >= pfxSum(raw, PEarned(msg.Provider), d)
+//@ requires recorded_earnings_nonneg: forall d Str :: pfxSum(raw, PEarned(msg.Provider), d) >= 0 && pfxSum(raw, POwnerEarned(msg.Owner), d) >= 0
+//@ ensures [C05] only_the_provider_owner: err == NoErr && len(msg.Provider) > 0 ==> addrEq(msg.Owner, ownerOf(old(raw), msg.Provider))
+//@ ensures [C05] only_the_escrow_is_debited: err == NoErr ==> (forall a Bytes, d Str :: {bal[a][d]} a != requestAcc ==> bal[a][d] >= old(bal)[a][d])
